@@ -28,6 +28,65 @@ type readyLoop struct {
 	other    []string // sites that are go/defer
 	// apply sites inside dispatch helpers beyond the one counted for the helper call itself
 	helperSites int
+	// the Ready case body is a helper method: iteration ends at its returns
+	helperBody bool
+	// the function that contains the select receiving from Ready() (== fn unless the body is a helper)
+	loopFn *ssa.Function
+}
+
+// endOfIteration: the instruction that ends one pass over a Ready: the select of the loop, or a return of the body helper.
+func (rl *readyLoop) endOfIteration(i ssa.Instruction) bool {
+	if rl.helperBody {
+		_, isRet := i.(*ssa.Return)
+		return isRet
+	}
+	return i == ssa.Instruction(rl.sel)
+}
+
+// readyBodyHelper: fn receives from Ready() and hands the received value to a method of the same receiver that takes a
+// raft.Ready parameter; returns that method and the cell it keeps the parameter in.
+func readyBodyHelper(fn *ssa.Function) (*ssa.Function, *ssa.Alloc) {
+	var body *ssa.Function
+	var cell *ssa.Alloc
+	isReady := func(t types.Type) bool {
+		return typeName(t) == "Ready" && strings.HasSuffix(typePkg(t), "etcd/raft")
+	}
+	eachInstr(fn, func(i ssa.Instruction) {
+		cl, ok := i.(*ssa.Call)
+		if !ok || cl.Call.StaticCallee() == nil || !modLocal(cl.Call.StaticCallee()) || recvTypeName(cl.Call.StaticCallee()) != recvTypeName(fn) || recvTypeName(fn) == "" {
+			return
+		}
+		h := cl.Call.StaticCallee()
+		for _, p := range h.Params {
+			if !isReady(p.Type()) {
+				continue
+			}
+			eachInstr(h, func(j ssa.Instruction) {
+				if st, isS := j.(*ssa.Store); isS && st.Val == ssa.Value(p) {
+					if al, isA := st.Addr.(*ssa.Alloc); isA {
+						body, cell = h, al
+					}
+				}
+			})
+		}
+	})
+	// only when fn itself does not keep a Ready cell with field uses (the usual inline form)
+	inline := false
+	eachInstr(fn, func(i ssa.Instruction) {
+		if fa, ok := i.(*ssa.FieldAddr); ok {
+			if al, isA := fa.X.(*ssa.Alloc); isA {
+				if p, isP := al.Type().(*types.Pointer); isP && isReady(p.Elem()) {
+					if sf := structField(fa.X.Type(), fa.Field); sf != nil && (sf.Name() == "HardState" || sf.Name() == "Entries") {
+						inline = true
+					}
+				}
+			}
+		}
+	})
+	if inline {
+		return nil, nil
+	}
+	return body, cell
 }
 
 func readyField(v ssa.Value, rd *ssa.Alloc) string {
@@ -53,7 +112,7 @@ func readyField(v ssa.Value, rd *ssa.Alloc) string {
 }
 
 func analyseReadyLoop(c *Ctx, fn *ssa.Function, ro *roles) *readyLoop {
-	rl := &readyLoop{fn: fn, applyWhy: map[ssa.Instruction]string{}}
+	rl := &readyLoop{fn: fn, loopFn: fn, applyWhy: map[ssa.Instruction]string{}}
 	// the Ready cell: an Alloc of type raft.Ready
 	eachInstr(fn, func(i ssa.Instruction) {
 		if al, ok := i.(*ssa.Alloc); ok {
@@ -69,6 +128,12 @@ func analyseReadyLoop(c *Ctx, fn *ssa.Function, ro *roles) *readyLoop {
 			}
 		}
 	})
+	// the body of the Ready case may live in a helper that is handed the received Ready (handleReady(rd, …)): then that
+	// helper is the function whose paths are examined, and its returns are the end of one iteration
+	if body, cell := readyBodyHelper(fn); body != nil {
+		rl.fn, rl.rd, rl.helperBody = body, cell, true
+		fn = body
+	}
 	if rl.rd == nil {
 		return rl
 	}
@@ -276,8 +341,9 @@ func raftLoopRules(c *Ctx, r *Report, ids map[string]string) *readyLoop {
 	for _, fn := range ro.readyLoops {
 		rl := analyseReadyLoop(c, fn, ro)
 		last = rl
+		fn := rl.fn
 		name := fnName(fn)
-		if rl.rd == nil || rl.sel == nil {
+		if rl.rd == nil || (rl.sel == nil && !rl.helperBody) {
 			r.Unk(ids["persist"], name, "ready-value", c.Pos(fn.Pos()), "cannot find the Ready value / the select receiving it")
 			continue
 		}
@@ -391,7 +457,7 @@ func raftLoopRules(c *Ctx, r *Report, ids map[string]string) *readyLoop {
 					if _, reach := reachesAvoiding(fn, t, func(i ssa.Instruction) bool {
 						st, ok := i.(*ssa.Store)
 						return ok && fieldOfAddr(st.Addr) == leadField
-					}, func(i ssa.Instruction) bool { return i == ssa.Instruction(rl.sel) }); reach {
+					}, func(i ssa.Instruction) bool { return rl.endOfIteration(i) }); reach {
 						okStore = false
 					}
 				}
@@ -406,13 +472,13 @@ func raftLoopRules(c *Ctx, r *Report, ids map[string]string) *readyLoop {
 			} else {
 				adv := rl.advance[0]
 				// not in an inner loop: cannot reach itself without passing the select
-				_, again := reachesAvoiding(fn, adv, func(i ssa.Instruction) bool { return i == ssa.Instruction(adv) }, func(i ssa.Instruction) bool { return i == ssa.Instruction(rl.sel) })
+				_, again := reachesAvoiding(fn, adv, func(i ssa.Instruction) bool { return i == ssa.Instruction(adv) }, func(i ssa.Instruction) bool { return rl.endOfIteration(i) })
 				// every path from persist to the next select passes Advance
-				_, skip := reachesAvoiding(fn, p, func(i ssa.Instruction) bool { return i == ssa.Instruction(rl.sel) }, func(i ssa.Instruction) bool { return i == ssa.Instruction(adv) })
+				_, skip := reachesAvoiding(fn, p, func(i ssa.Instruction) bool { return rl.endOfIteration(i) }, func(i ssa.Instruction) bool { return i == ssa.Instruction(adv) })
 				// no apply/send site after Advance in the same iteration
 				var late ssa.Instruction
 				for _, a := range rl.applies {
-					if _, reach := reachesAvoiding(fn, adv, func(i ssa.Instruction) bool { return i == a }, func(i ssa.Instruction) bool { return i == ssa.Instruction(rl.sel) }); reach {
+					if _, reach := reachesAvoiding(fn, adv, func(i ssa.Instruction) bool { return i == a }, func(i ssa.Instruction) bool { return rl.endOfIteration(i) }); reach {
 						late = a
 					}
 				}
@@ -676,7 +742,7 @@ func c03R4(c *Ctx, r *Report, rl *readyLoop, ro *roles) {
 					return
 				}
 				n++
-				if _, plain := i.(*ssa.Call); !plain || f != rl.fn {
+				if _, plain := i.(*ssa.Call); !plain || (f != rl.fn && f != rl.loopFn) {
 					ok = false
 					why = "called from " + fnName(f) + " at " + c.InstrPos(i)
 				}
@@ -701,56 +767,80 @@ func c03R4(c *Ctx, r *Report, rl *readyLoop, ro *roles) {
 					pi = k
 				}
 			}
-			eachInstr(rl.fn, func(j ssa.Instruction) {
-				cc, ok := j.(*ssa.Call)
-				if !ok || cc.Call.StaticCallee() != sc {
-					return
-				}
-				arg := cc.Call.Args[pi]
-				bad := ""
-				nSrc := 0
-				for _, o := range origins(arg, originOpt{}) {
-					if _, isC := o.(*ssa.Const); isC {
-						continue
+			scanFns := []*ssa.Function{rl.fn}
+			if rl.loopFn != rl.fn {
+				scanFns = append(scanFns, rl.loopFn)
+			}
+			for _, scanFn := range scanFns {
+				eachInstr(scanFn, func(j ssa.Instruction) {
+					cc, ok := j.(*ssa.Call)
+					if !ok || cc.Call.StaticCallee() != sc {
+						return
 					}
-					a, isL := loadOf(o)
-					if !isL {
-						bad = o.String()
-						continue
-					}
-					fa, isF := a.(*ssa.FieldAddr)
-					if !isF || structField(fa.X.Type(), fa.Field).Name() != "Index" {
-						bad = o.String()
-						continue
-					}
-					nSrc++
-					// either entry.Index of the committed-entries element, or rd.Snapshot.Metadata.Index
-					if n := readyField(o, rl.rd); n == "Snapshot.Metadata.Index" {
-						continue
-					}
-					if al, isA := fa.X.(*ssa.Alloc); isA && typeName(al.Type().(*types.Pointer).Elem()) == "Entry" {
-						// recorded after the apply calls of this iteration: no apply site reachable from the load before the next element is fetched
-						var late ssa.Instruction
-						for _, ap := range rl.applies {
-							if _, reach := reachesAvoiding(rl.fn, o.(ssa.Instruction), func(x ssa.Instruction) bool { return x == ap }, func(x ssa.Instruction) bool {
-								if _, isSel := x.(*ssa.Select); isSel {
-									return true
+					arg := cc.Call.Args[pi]
+					bad := ""
+					nSrc := 0
+					// the applied index may be carried by the loop function and updated by the body helper's result
+					var srcs []ssa.Value
+					for _, o := range origins(arg, originOpt{}) {
+						if hc, isC := o.(*ssa.Call); isC && rl.helperBody && hc.Call.StaticCallee() == rl.fn {
+							for _, rt := range returnsOf(rl.fn) {
+								for _, res := range rt.Results {
+									for _, o2 := range origins(res, originOpt{}) {
+										if _, isP := o2.(*ssa.Parameter); isP {
+											continue
+										}
+										srcs = append(srcs, o2)
+									}
 								}
-								st, isS := x.(*ssa.Store)
-								return isS && st.Addr == ssa.Value(al)
-							}); reach {
-								late = ap
 							}
+							continue
 						}
-						if late != nil {
-							bad = "entry.Index is recorded before the entry is applied (" + c.InstrPos(late) + ")"
-						}
-						continue
+						srcs = append(srcs, o)
 					}
-					bad = o.String()
-				}
-				r.Check(bad == "" && nSrc >= 2, "C03.R4", fnName(rl.fn), "snapshot-index", c.Pos(cc.Pos()), "applied index = φ(0, applied entry.Index, installed snapshot Metadata.Index) "+bad)
-			})
+					for _, o := range srcs {
+						if _, isC := o.(*ssa.Const); isC {
+							continue
+						}
+						a, isL := loadOf(o)
+						if !isL {
+							bad = o.String()
+							continue
+						}
+						fa, isF := a.(*ssa.FieldAddr)
+						if !isF || structField(fa.X.Type(), fa.Field).Name() != "Index" {
+							bad = o.String()
+							continue
+						}
+						nSrc++
+						// either entry.Index of the committed-entries element, or rd.Snapshot.Metadata.Index
+						if n := readyField(o, rl.rd); n == "Snapshot.Metadata.Index" {
+							continue
+						}
+						if al, isA := fa.X.(*ssa.Alloc); isA && typeName(al.Type().(*types.Pointer).Elem()) == "Entry" {
+							// recorded after the apply calls of this iteration: no apply site reachable from the load before the next element is fetched
+							var late ssa.Instruction
+							for _, ap := range rl.applies {
+								if _, reach := reachesAvoiding(rl.fn, o.(ssa.Instruction), func(x ssa.Instruction) bool { return x == ap }, func(x ssa.Instruction) bool {
+									if _, isSel := x.(*ssa.Select); isSel {
+										return true
+									}
+									st, isS := x.(*ssa.Store)
+									return isS && st.Addr == ssa.Value(al)
+								}); reach {
+									late = ap
+								}
+							}
+							if late != nil {
+								bad = "entry.Index is recorded before the entry is applied (" + c.InstrPos(late) + ")"
+							}
+							continue
+						}
+						bad = o.String()
+					}
+					r.Check(bad == "" && nSrc >= 2, "C03.R4", fnName(rl.fn), "snapshot-index", c.Pos(cc.Pos()), "applied index = φ(0, applied entry.Index, installed snapshot Metadata.Index) "+bad)
+				})
+			}
 		})
 	}
 	if len(snapCallers) == 0 {
